@@ -34,7 +34,7 @@ def skippedTypeNames : List String := ["Mutation", "Query"]
 
 /-- model/template/Union.jinja2: the `if` tree and every `{{ … }}` site with its Python lexical state -/
 def unionTemplate : UTpl :=
-  (.ite (.var "description") (.site (.other "in a loop over Call(description.splitlines)") .comment .done) .done (.ite (.lenGt 1) (.site .className .code (.site .eachMember .str .done)) (.site .className .code (.site .firstMember .code .done)) .done))
+  (.ite (.var "description") (.site (.other "in a loop over Call(description.splitlines)") .comment .done) .done (.ite (.lenGt 1) (.site .className .code (.site .eachMember .str .done)) (.site .className .code (.site .firstMember .str .done)) .done))
 
 /-- identifiers in the literal text of Union.jinja2 that are in code -/
 def unionLiteralNames : List String := ["TypeAlias", "Union"]
